@@ -32,6 +32,8 @@ for d in sorted(glob.glob(f'{V}/seeded/*/')):
     except Exception: continue
     needs = re.sub(r'\s+', ' ', m.get('needs_to_manifest', ''))[:260].replace('|', '/')
     res = m.get('detected', '?')
+    if m.get('caught_by') and m.get('caught_by') != m.get('breaks_property'): res += f" (by {m['caught_by']})"
+    elif m.get('caught_by'): res += f" ({m['caught_by']})"
     sig = ''
     mm = re.search(r'signature=(\S+)', m.get('check_output', ''))
     if mm: sig = mm.group(1)[:110]
